@@ -24,6 +24,12 @@ def mk(kind, Scr, classes):
         return Client(("h", 1), socket_module=Scr.sm, default_noreply=False)
     if kind == "ClientDnr":
         return Client(("h", 1), socket_module=Scr.sm, default_noreply=True)
+    if kind == "ClientDnr1":
+        return Client(("h", 1), socket_module=Scr.sm, default_noreply=1)          # "true" as a number, e.g. from a config file
+    if kind == "ClientUnix":
+        return Client("/var/run/mc.sock", socket_module=Scr.sm, default_noreply=False)
+    if kind == "HashUnix":
+        return HashClient(["/var/run/mc.sock"], socket_module=Scr.sm, default_noreply=False, retry_attempts=0, retry_timeout=0, dead_timeout=0)
     if kind == "ClientIgn":
         return Client(("h", 1), socket_module=Scr.sm, default_noreply=False, ignore_exc=True)
     if kind == "ClientUtf8":
@@ -52,7 +58,7 @@ def client_socks(kind, obj):
     def of_client(c):
         if getattr(c, "sock", None) is not None:
             out.append(c.sock)
-    if kind in ("Client", "ClientDnr", "ClientIgn", "ClientUtf8"):
+    if kind in ("Client", "ClientDnr", "ClientDnr1", "ClientIgn", "ClientUtf8", "ClientUnix"):
         of_client(obj)
     elif kind in ("Pooled", "PooledDnr", "PooledUtf8"):
         for c in list(obj.client_pool._free_objs) + list(obj.client_pool._used_objs):
@@ -74,8 +80,8 @@ def run_sequence(ctx, kind, classes, seq, rng, model_lines, model_meta):
     W = S.world
     desc = []
     for n, (call, script) in enumerate(seq):
-        is_client = kind in ("Client", "ClientDnr", "ClientIgn", "ClientUtf8")
-        dnr = kind in ("ClientDnr", "PooledDnr", "ClientUtf8", "PooledUtf8", "HashUtf8")
+        is_client = kind in ("Client", "ClientDnr", "ClientDnr1", "ClientIgn", "ClientUtf8", "ClientUnix")
+        dnr = kind in ("ClientDnr", "ClientDnr1", "PooledDnr", "ClientUtf8", "PooledUtf8", "HashUtf8")
         open_before = is_client and obj.sock is not None
         leftover_before = []
         if open_before:
@@ -111,6 +117,8 @@ def run_sequence(ctx, kind, classes, seq, rng, model_lines, model_meta):
             for cid, pushed in S.pushed:
                 evs += pushed
             cf = script.get("connect_fault")
+            if cf and cf[0] == "getaddrinfo" and kind.endswith("Unix"):
+                cf = None         # a UNIX-socket path is not resolved: that fault never fires
             sfk = script.get("send_fault")
             from clientlib import SOCK_CODES
             line = (f"call {cfg_tok(utf8=(kind == 'ClientUtf8'), dnr=dnr, ign=(kind == 'ClientIgn'))} open={int(open_before)} {call_tokens(call)} "
@@ -136,14 +144,14 @@ def main(argv):
                 "classes Client, PooledClient, HashClient(1 and 2 servers, pooled); plus random sequences with several scripted calls; "
                 "non-trivial = distinct (class, sequence)")
     model_lines, model_meta = [], []
-    kinds = ["Client", "ClientDnr", "ClientIgn", "Pooled", "PooledDnr", "Hash1", "Hash2", "HashPooled"]
+    kinds = ["Client", "ClientDnr", "ClientDnr1", "ClientIgn", "Pooled", "PooledDnr", "Hash1", "Hash2", "HashPooled", "ClientUnix", "HashUnix"]
     followups = [c for c in OPS if c["op"] in ("get", "add", "set", "incr", "get_many", "delete", "gets", "version")]
     n = 0
     for kind in kinds:
         for oi, call in enumerate(OPS):
             scripts = scripts_for(has_reply(call, kind in ("ClientDnr", "PooledDnr")), rng, ctx.thorough)
             if kind not in ("Client", "Pooled") and not ctx.thorough:
-                scripts = scripts[::3] if kind.startswith("Hash") else scripts[::2]
+                scripts = scripts[::3] if (kind.startswith("Hash") or kind in ("ClientDnr1", "ClientUnix")) else scripts[::2]
             # faults that are not Exceptions (C10 studies them in depth; the ownership clause itself does not care what kind of fault it was)
             if has_reply(call, kind in ("ClientDnr", "PooledDnr")):
                 scripts = scripts + [{"recv_fault": (pos, bk), "chunk": "bytes"} for bk, pos in (("kbd", 0), ("interrupt", 1), ("sysexit", 3))]
@@ -156,7 +164,7 @@ def main(argv):
                     seq.append((call, script))
                     for j in range(3 if ctx.thorough else 2):
                         seq.append((followups[(oi * 7 + si * 3 + j * 5) % len(followups)], {}))
-                    ok = run_sequence(ctx, kind, classes, seq, rng, model_lines if kind in ("Client", "ClientDnr", "ClientIgn") else None, model_meta)
+                    ok = run_sequence(ctx, kind, classes, seq, rng, model_lines if kind in ("Client", "ClientDnr", "ClientDnr1", "ClientIgn", "ClientUnix") else None, model_meta)
                     n += 1
                     ctx.case((kind, oi, si, warm), sample={"class": kind, "calls": [c["op"] for c, _ in seq], "script": repr(script)} if n in (50, 3000) else None)
                     ctx.count("class:" + kind)
